@@ -77,10 +77,25 @@ func GenPlan(r *rng.R, t *chaingen.Tree, flavors []string, density int) []Step {
 	return plan
 }
 
+// shrinkBudget bounds the time one harness run spends on shrinking failing cases.
+const shrinkBudget = 120 * time.Second
+
+var shrinkSpent time.Duration
+
 // Shrink drops steps while the failure of the given kind persists.
 func Shrink(c Case, kind string, fails func(Case) string) Case {
-	// (bounded: histories over large trees are expensive to re-run)
-	deadline := time.Now().Add(40 * time.Second)
+	// (bounded: histories over large trees are expensive to re-run, and the whole run shares one budget,
+	// so a tree with many failing histories still reports in time)
+	left := shrinkBudget - shrinkSpent
+	if left <= 0 {
+		return c
+	}
+	if left > 40*time.Second {
+		left = 40 * time.Second
+	}
+	start := time.Now()
+	defer func() { shrinkSpent += time.Since(start) }()
+	deadline := start.Add(left)
 	for changed := true; changed && time.Now().Before(deadline); {
 		changed = false
 		for i := range c.Plan {
